@@ -406,7 +406,9 @@ fn bounds(p: P, tier: Tier) -> Bounds {
                         mb: true,
                         ..base.clone()
                     },
-                    if p == P::C01 { vec![0] } else { vec![0, 6] },
+                    // (C01 makes five calls per document and repeats everything on the plain
+                    // build: it keeps the two other passes only)
+                    if p == P::C01 { vec![] } else { vec![0, 6] },
                 ),
                 // deep: 8 lines, nesting depth 3, two kinds (6.0e5 trees)
                 (
@@ -423,8 +425,13 @@ fn bounds(p: P, tier: Tier) -> Bounds {
                 ),
             ],
             ast_ctx: 1,
-            lines: vec![(6, true, vec![0, 1], 4), (5, false, vec![0], 3)],
-            tok_deep_pairs: vec![0, 1],
+            // C01 makes five calls per document and repeats everything on the plain build
+            lines: if p == P::C01 {
+                vec![(6, true, vec![0], 4), (5, false, vec![0], 3)]
+            } else {
+                vec![(6, true, vec![0, 1], 4), (5, false, vec![0], 3)]
+            },
+            tok_deep_pairs: if p == P::C01 { vec![0] } else { vec![0, 1] },
             tok_n: 5,
             tok_pairs: {
                 let mut v = all_pairs;
@@ -527,6 +534,9 @@ pub fn run(r: &Report, p: P) {
     for (ast, ast_pairs) in &b.asts {
         if r.stopped() {
             break;
+        }
+        if ast_pairs.is_empty() {
+            continue;
         }
         let ast = ast.clone();
         let single = crate::explore::count_choices(|ch: &mut Chooser| {
